@@ -30,7 +30,7 @@ Guard(kind) ==
      [] kind = "declarr" -> More /\ Room >= 2
      [] kind = "new"     -> More /\ FitClasses # {} /\ NoObjHere
      [] kind = "gate"    -> More /\ ValidRefs # {}
-     [] kind = "cx"      -> More /\ Cardinality({IdxOf(r) : r \in ValidRefs}) >= 2
+     [] kind = "cx"      -> More /\ ValidRefs # {}
      [] kind = "measure" -> More /\ ValidRefs # {}
      [] kind = "measarr" -> More /\ ArrVars # {}
      [] kind = "reset"   -> More /\ ValidRefs # {}
@@ -52,7 +52,8 @@ GenNext ==
         [] kind = "gate"    -> \E g \in {Pick(GateSet)}, coin \in {Pick(1..8)} : \E r \in {Pick(Pool(coin))}, mm \in {Pick(Turns)} : Gate(g[1], g[2], IF g[1] \in Rots THEN mm ELSE 0, r, p)
         [] kind = "cx"      -> \E coin \in {Pick(1..8)} : \E c \in {Pick(Pool(coin))} :
                                  LET others == {x \in Pool(coin) : IdxOf(x) # IdxOf(c)}
-                                     cand   == IF others = {} THEN {x \in ValidRefs : IdxOf(x) # IdxOf(c)} ELSE others
+                                     \* one time in sixteen (or when nothing else exists) the same qubit is named twice
+                                     cand   == IF others = {} \/ Pick(1..16) = 1 THEN ValidRefs ELSE others
                                  IN \E r \in {Pick(cand)} : CXg(c, r, p)
         [] kind = "measure" -> \E coin \in {Pick(1..8)} : \E r \in {Pick(Pool(coin))} : Measure(r, d, t, p)
         [] kind = "measarr" -> \E i \in {Pick(ArrVars)} : MeasureArr(i, rs)
